@@ -311,6 +311,53 @@ pub proof fn lemma_trees_sel(v: Seq<Tag>, a: Seq<S>, n: nat)
         rc.val matches Some(v) && v@ == ber_t(t_seq(sel_trees(re.attrs@, re.attrs@.len()))), //# C19.read_entry_value_is_the_attribute_selection_rfc4527
 //@end
 
+// ---- Assertion (RFC 4528) and MatchedValues (RFC 3876) request controls: the value is the BER of the filter the string
+// compiles to. The filter compiler itself (crate::filter::parse / parse_matched_values) is outside this unit (C08); it is
+// an assumed external function of the string here.
+//@const file=src/controls_impl/assertion.rs name=ASSERTION_OID
+//@const file=src/controls_impl/matched_values.rs name=MATCHED_VALUES_OID
+pub proof fn filter_control_oids()
+    ensures ASSERTION_OID@ == "1.3.6.1.1.12"@, MATCHED_VALUES_OID@ == "1.2.826.0.1.3344810.2.3"@, //# C19.assertion_and_matched_values_oids
+{ }
+pub struct FilterErr { pub k: u8 }
+impl core::fmt::Debug for FilterErr { #[verifier::external_body] fn fmt(&self, f: &mut core::fmt::Formatter<'_>) -> core::fmt::Result { unimplemented!() } }
+pub uninterp spec fn filter_spec(s: Seq<char>) -> Option<T>;
+pub uninterp spec fn mv_filter_spec(s: Seq<char>) -> Option<T>;
+#[verifier::external_body]
+pub fn parse(s: &str) -> (r: core::result::Result<Tag, FilterErr>)
+    ensures match filter_spec(s@) { Some(t) => r matches Ok(x) && tree(x) == t, None => r is Err }
+{ unimplemented!() }
+#[verifier::external_body]
+pub fn parse_matched_values(s: &str) -> (r: core::result::Result<Tag, FilterErr>)
+    ensures match mv_filter_spec(s@) { Some(t) => r matches Ok(x) && tree(x) == t, None => r is Err }
+{ unimplemented!() }
+pub struct Assertion { pub filter: S }
+pub struct MatchedValues { pub filter: S }
+//@lift name=From<Assertion>::from file=src/controls_impl/assertion.rs impl="impl<S: AsRef<str>>\s+From<Assertion<S>>\s+for\s+RawControl\s*\{" fn=from
+//@ sub "fn from(assn: Assertion<S>) -> RawControl" => "fn assertion_into_raw(assn: Assertion) -> RawControl"
+//@ sub "Vec::from(&buf[..])" => "verif_bytes_of(&buf)"
+//@ ret rc
+//@ spec
+    requires
+        filter_spec(assn.filter.s@) is Some,   // an invalid filter string panics at construction ("filter"), by documentation
+        assn.filter.s.is_ascii(),              // vstd specifies str::len (the capacity estimate) only for ASCII strings
+    ensures
+        rc.ctype@ == ASSERTION_OID@, rc.crit == false, //# C19.assertion_control_oid_not_critical
+        rc.val matches Some(v) && v@ == ber_t(filter_spec(assn.filter.s@)->0), //# C19.assertion_value_is_the_ber_of_the_compiled_filter
+//@end
+//@lift name=From<MatchedValues>::from file=src/controls_impl/matched_values.rs impl="impl<S: AsRef<str>>\s+From<MatchedValues<S>>\s+for\s+RawControl\s*\{" fn=from
+//@ sub "fn from(assn: MatchedValues<S>) -> RawControl" => "fn matched_values_into_raw(assn: MatchedValues) -> RawControl"
+//@ sub "Vec::from(&buf[..])" => "verif_bytes_of(&buf)"
+//@ ret rc
+//@ spec
+    requires
+        mv_filter_spec(assn.filter.s@) is Some,
+        assn.filter.s.is_ascii(),
+    ensures
+        rc.ctype@ == MATCHED_VALUES_OID@, rc.crit == false, //# C19.matched_values_control_oid_not_critical
+        rc.val matches Some(v) && v@ == ber_t(mv_filter_spec(assn.filter.s@)->0), //# C19.matched_values_value_is_the_ber_of_the_compiled_filter
+//@end
+
 // ======================================================================= response parsers (tree level)
 // lber::parse::parse_tag as a function of the bytes (V-lber-dec: the result is a tree of which the consumed bytes are a
 // definite-length encoding); "for every well-formed response value" = the value parses to a tree of the RFC's shape
